@@ -294,6 +294,11 @@ def active_book(ctx: Ctx):
 # main loop and submission
 
 
+def dataflow_expand(ctx: Ctx, fn: FuncInfo, e: ast.AST, at: int) -> ast.AST:
+    from ..dataflow import guard_like
+    return expand_locals(ctx.cfg(fn), ctx.rd(fn), e, at, only=guard_like)
+
+
 def _main_loop(ctx: Ctx):
     sub = roles.submission_sites(ctx)[0]
     fn = sub.fn
@@ -412,9 +417,14 @@ def submit_all(ctx: Ctx):
     yield ctx.ob('C05.SUBMIT-ALL', ok, fn, wait_sites[0], 'every main-loop iteration waits after submitting',
                  '' if ok else 'the main loop can iterate without waiting for completions')
     # nothing between the ready computation and the submit loop can skip it
-    ok2 = cond_in_loop(ctx, fn, outer, inner) == TRUE
+    ci = cond_in_loop(ctx, fn, outer, inner)
+    ok2 = ci == TRUE
+    if not ok2 and isinstance(outer.test, ast.Constant) and outer.test.value:
+        # `while True:` with a leading `if <done>: break`: the submit loop runs in every iteration that is not the last
+        brks = [b for b in early_exits(outer, allow_raise=True, allow_continue=True) if isinstance(b, ast.Break)]
+        ok2 = len(brks) == 1 and equivalent(ci, f_not(cond_in_loop(ctx, fn, outer, brks[0])))
     yield ctx.ob('C05.SUBMIT-ALL', ok2, fn, inner, 'submit loop runs in every main-loop iteration',
-                 '' if ok2 else f'the submit loop is skipped unless {show(cond_in_loop(ctx, fn, outer, inner))}')
+                 '' if ok2 else f'the submit loop is skipped unless {show(ci)}')
 
 
 @rule('C11.LOOP-COND', ['C11'])
@@ -429,13 +439,31 @@ def loop_cond(ctx: Ctx):
         if isinstance(n, ast.Assign) and isinstance(n.value, ast.Call) and len(n.targets) == 1 \
                 and isinstance(n.targets[0], ast.Name) and st.cls.qualname in ctx.P.resolve_call(n.value, fn):
             svar = n.targets[0].id
-    pcs = [c for c in calls_in(ast.Expr(value=outer.test)) if c is not None
+    # the effective continuation condition: the while test, or for `while True:` the negation of the guard of the
+    # leading `if ...: break`
+    test_expr = outer.test
+    have = None
+    if isinstance(outer.test, ast.Constant) and outer.test.value:
+        brks = [b for b in early_exits(outer, allow_raise=True, allow_continue=True) if isinstance(b, ast.Break)]
+        g0 = ctx.cfg(fn)
+        if len(brks) == 1:
+            cb = cond_in_loop(ctx, fn, outer, brks[0])
+            have = f_not(cb)
+            # the break must come before anything is submitted or waited for
+            first_sub = g0.primary(inner)
+            if not g0.dominates(g0.primary(brks[0]), first_sub) and not g0.must_pass(g0.primary(outer), [n.id for n in g0.nodes if n.kind == 'test'], [first_sub], exc=False):
+                have = None
+            test_src = [n for n in g0.nodes if n.kind == 'test' and (n.id, True) in ctx.facts(fn).at(g0.primary(brks[0])) or (n.kind == 'test' and (n.id, False) in ctx.facts(fn).at(g0.primary(brks[0])))]
+            if test_src:
+                test_expr = dataflow_expand(ctx, fn, test_src[-1].ast, test_src[-1].id)
+    pcs = [c for c in calls_in(ast.Expr(value=test_expr)) if c is not None
            and {f.qualname for f in roles.impls(ctx, roles.RUNNER, 'pending_task_count')} & set(ctx.P.resolve_call(c, fn))]
     if svar is None or not pcs:
         yield ctx.ob('C11.LOOP-COND', False, fn, outer, 'main loop condition',
-                     f'the loop condition `{src(outer.test)}` does not consult runner.pending_task_count()', construct='loop-cond')
+                     f'the loop condition `{src(test_expr)}` does not consult runner.pending_task_count()', construct='loop-cond')
         return
-    have = formula_of(ctx, fn, outer.test)
+    if have is None:
+        have = formula_of(ctx, fn, outer.test)
     need = formula_of(ctx, fn, f'(len({svar}.{sf.pending}) > 0) or ({src(pcs[0])} > 0)')
     # pending_task_count() is a length (checked below), hence non-negative: `!= 0` is the same test
     need_ne = formula_of(ctx, fn, f'(len({svar}.{sf.pending}) > 0) or ({src(pcs[0])} != 0)')
@@ -473,7 +501,7 @@ def edges(ctx: Ctx):
     dv, tv = sf.insert_dep_var, sf.insert_task_var
     exits = early_exits(lp, allow_raise=True, allow_continue=False)
     it = strip_order_preserving(lp.iter)
-    whole = isinstance(it, ast.Name) and it.id in [a.arg for a in fn.params]
+    whole = isinstance(it, ast.Name)
     yield ctx.ob('C02.EDGES', whole and not exits, fn, lp, 'edge loop covers all dependencies',
                  '' if whole and not exits else f'the edge-registration loop iterates `{src(lp.iter)}` or exits early')
     for (field, key, val, role) in ((sf.pending_deps, tv, dv, 'pending dependencies of the task'),
@@ -492,11 +520,21 @@ def edges(ctx: Ctx):
                      construct=f'edge:{role}')
     # dependencies flow into insertion: the function that calls insert with get_direct_dependencies' result
     gdd = ctx.P.func('tasks.get_direct_dependencies')
-    for cf in st.construction:
-        for call in calls_in(cf.node):
-            if fn.qualname in ctx.P.resolve_call(call, cf) and cf.qualname != fn.qualname:
-                # second argument: the dependency collection
-                deps_arg = call.args[1] if len(call.args) > 1 else kwarg(call, [a.arg for a in fn.params][2] if len(fn.params) > 2 else 'dependencies')
+    inlined = any(gdd.qualname in ctx.P.resolve_call(c, fn) for c in calls_in(fn.node))
+    sites = []
+    if inlined:
+        # the insertion lives in the processing function itself: the dependency collection is what the edge
+        # loop iterates
+        sites.append((fn, lp, lp.iter))
+    else:
+        for cf in st.construction:
+            for call in calls_in(cf.node):
+                if fn.qualname in ctx.P.resolve_call(call, cf) and cf.qualname != fn.qualname:
+                    da = call.args[1] if len(call.args) > 1 else kwarg(call, [a.arg for a in fn.params][2] if len(fn.params) > 2 else 'dependencies')
+                    sites.append((cf, call, da))
+    for (cf, call, deps_arg) in sites:
+        for _once in (0,):
+            if True:
                 g = ctx.cfg(cf)
                 rd = ctx.rd(cf)
                 okp = False
@@ -557,13 +595,23 @@ def instances(ctx: Ctx):
     proc = None
     for cf in st.construction:
         for lp in [n for n in walk_local(cf.node) if isinstance(n, ast.For) and isinstance(n.target, ast.Name)]:
-            if any(sf.insert_fn.qualname in ctx.P.resolve_call(c, cf) for c in calls_in(lp)):
-                proc = (cf, lp)
+            if any(sf.insert_fn.qualname in ctx.P.resolve_call(c, cf) for c in calls_in(lp)) and cf.qualname != sf.insert_fn.qualname:
+                proc = (cf, lp, [c for c in calls_in(lp) if sf.insert_fn.qualname in ctx.P.resolve_call(c, cf)][0])
     if proc is None:
-        raise AnalysisError('no processing loop calling the insertion function in the construction phase')
-    cf, lp = proc
+        # insertion inlined into the processing function: the processing loop is the loop over the task being
+        # inserted, the insertion point is the add to the pending collection
+        cf = sf.insert_fn
+        csn = cf.self_name
+        for lp in [n for n in walk_local(cf.node) if isinstance(n, ast.For) and isinstance(n.target, ast.Name)
+                   and n.target.id == sf.insert_task_var]:
+            adds = [c for c in calls_in(lp) if isinstance(c.func, ast.Attribute) and c.func.attr == 'add'
+                    and same_expr(c.func.value, ast.parse(f'{csn}.{sf.pending}', mode='eval').body)]
+            if adds:
+                proc = (cf, lp, adds[0])
+    if proc is None:
+        raise AnalysisError('no processing loop around the insertion of tasks found in the construction phase')
+    cf, lp, ins = proc
     tv = lp.target.id
-    ins = [c for c in calls_in(lp) if sf.insert_fn.qualname in ctx.P.resolve_call(c, cf)][0]
     c = cond_in_loop(ctx, cf, lp, ins)
     # allowed: TRUE, or "not (id(t) in <seen>)"
     from ..formula import atoms_of, ev, valuations
@@ -589,7 +637,11 @@ def instances(ctx: Ctx):
     aps = [c2 for c2 in calls_in(fn.node) if isinstance(c2.func, ast.Attribute) and c2.func.attr == 'append'
            and same_expr(c2.func.value, ast.parse(f'{sn}.{sf.instances}[{sf.insert_task_var}]', mode='eval').body)
            and c2.args and isinstance(c2.args[0], ast.Name) and c2.args[0].id == sf.insert_task_var]
-    ok = bool(aps) and cond_from_entry(ctx, fn, aps[0]) == TRUE
+    if fn.qualname == cf.qualname:
+        # insertion inlined into the processing loop: recorded on exactly the paths that insert
+        ok = bool(aps) and equivalent(cond_in_loop(ctx, fn, lp, aps[0]), cond_in_loop(ctx, fn, lp, ins))
+    else:
+        ok = bool(aps) and cond_from_entry(ctx, fn, aps[0]) == TRUE
     yield ctx.ob('C03.INSTANCES', ok, fn, aps[0] if aps else fn.node, 'every inserted instance is recorded under the task',
                  '' if ok else f'no unconditional `{sn}.{sf.instances}[task].append(task)` keyed by the task itself')
     # completion: marking loop over all instances on success
